@@ -13,7 +13,7 @@ ELECTION = "2099-11-05_XX_G"
 
 def make_config(office, states, features=(), aggregates=("postal_code", "county_fips", "district",
                                                         "county_classification", "unit"), fixed_effects=(),
-                election=ELECTION, unit_types=("county", "county-district", "precinct")):
+                election=ELECTION, unit_types=("county", "county-district", "precinct", "precinct-district")):
     return {election: [{"office": office, "states": list(states), "geographic_unit_types": list(unit_types),
                         "historical_election": [], "features": list(features), "aggregates": list(aggregates),
                         "fixed_effect": list(fixed_effects),
